@@ -17,7 +17,9 @@ META = dict(
                 "ghost being defined from the concrete state by a spec written from the property statement: override <=> flag set; "
                 "environment <=> the primary variable or ANY synonym's variable is set, primary first then synonyms in registration "
                 "order; file <=> a cached value, or the first entry of the file-value list named by the parameter or any synonym, which "
-                "is then cached on the parameter and removed from the list (the others stay in order); default always.  (C) the "
+                "is then cached on the parameter and removed from the list (the others stay in order); default always.  A string parameter overridden with NULL (parsec_mca_param_set_string(i, NULL)) "
+                "resolves, through the real param_lookup and lookup_override, to source OVERRIDE with a NULL value and never hands NULL "
+                "to strdup (job lookup_override.null_string; this was a crash, fixed in /repo 4ba9c5d).  (C) the "
                 "composition on the real bodies without any replacement (int/size_t, 1 synonym, 2 environment variables, 1-2 file "
                 "entries).  (D) process_arg as an inductive step on any well-formed pre-state (arrays of equal length, distinct names): "
                 "a repeated option turns the value into 'old,new', a new option appends one (name,value) pair to both arrays; and "
@@ -33,6 +35,8 @@ META = dict(
                   "stub strstr (naive substring search) in the lookup harness; CBMC's models of strdup / strcmp / strncmp / strlen / "
                   "malloc / realloc / free",
                   "stub parsec_show_help (deprecation / read-only warnings are no-ops)",
+                  "job lookup_override.null_string only: stub strdup that carries libc's precondition (argument not NULL) as a named "
+                  "obligation and copies at most SLEN bytes",
                   "stubs parsec_cmd_line_is_taken / get_ninsts / get_param: the parsed command line is a ghost list of (name, value) "
                   "instances; stub parsec_setenv_mca_param: records (name, value, target environment)",
                   "contracts of the four lookups used in job (A) are the clauses asserted around the real bodies in jobs (B) "
@@ -56,12 +60,13 @@ MANIFEST = dict(
          "complete for int and size_t parameters (all values, all 2^3 source combinations, read-only or not) given the contracts of the "
          "four lookups; those contracts, the synonym handling (environment and file), the caching/removal of file values and the "
          "comma-joining of repeated --mca options are discharged against the real bodies for bounded shapes (<= 3 synonyms, <= 3 "
-         "environment variables, <= 3 file entries, <= 4 repeated options, 1-character names, strings <= 3 characters), which is why "
+         "environment variables, <= 3 file entries, <= 3 repeated options, 1-character names, strings <= 3 characters), which is why "
          "the level is 'other' and not 'proof'.",
     note="Not decided: parsec_init's argv scanning and cmd_line.c's option parser, the parameter-file lexer, parsec_setenv, the '~/' "
          "expansion, numeric text conversion (strtol is an uninterpreted stub), construction of the PARSEC_MCA_ variable names, "
-         "longer strings / more synonyms than the bounds.  Known finding kept in its own job: a NULL string override "
-         "(parsec_mca_param_set_string(i, NULL)) makes the next lookup call strdup(NULL).",
+         "longer strings / more synonyms than the bounds.  A NULL string override (parsec_mca_param_set_string(i, NULL)) used "
+         "to make the next lookup call strdup(NULL); fixed in /repo 4ba9c5d, its job lookup_override.null_string now states the correct "
+         "behaviour.",
     technique="function contracts (callees replaced by contract via goto-instrument --dfcc; pre/post assertions around the real "
               "bodies) + ghost state, discharged by CBMC with complete unwinding of shape-bounded lists and strings",
     design_ref="DESIGN.md section 5, C38")
@@ -89,13 +94,13 @@ def jobs(tier):
                      defines=dict(D0, ONLY_NUMERIC=None), functions=fn, timeout=to, min_obligations=3))
         J.append(Job(nm + ".string", "h_lookup.c", entry=ent, unwind=slen + 3, unwindset=US,
                      defines=dict(D0, ONLY_STRING=None), bounded=BS % (slen - 1), functions=fn, timeout=to, min_obligations=3))
-    env_shapes = [(0, 1), (1, 2), (2, 3)] + ([(0, 0), (1, 0), (3, 3), (2, 1)] if full else [])
+    env_shapes = [(0, 1), (2, 3)] + ([(0, 0), (1, 0), (1, 2), (3, 3), (2, 1)] if full else [])
     for ns, ne in env_shapes:
         J.append(Job("lookup_env.s%de%d" % (ns, ne), "h_lookup.c", entry="h_lookup_env", unwind=max(slen, ns, ne) + 3, unwindset=US,
                      defines={"NSYN": ns, "NENV": ne, "NFILE": 0, "SLEN": slen},
                      bounded=BN % ("exactly %d synonyms, %d environment variables; " % (ns, ne) + BS % (slen - 1)),
                      functions=["lookup_env"], timeout=to, min_obligations=3))
-    file_shapes = [(0, 1), (1, 2)] + ([(0, 0), (2, 2), (1, 3), (3, 2)] if full else [(2, 1)])
+    file_shapes = [(0, 1), (1, 2)] + ([(0, 0), (2, 1), (2, 2), (1, 3), (3, 2)] if full else [])
     for ns, nf in file_shapes:
         J.append(Job("lookup_file.s%df%d" % (ns, nf), "h_lookup.c", entry="h_lookup_file", unwind=max(slen, ns, nf) + 3, unwindset=US,
                      defines={"NSYN": ns, "NENV": 0, "NFILE": nf, "SLEN": slen},
@@ -113,14 +118,14 @@ def jobs(tier):
         J.append(Job("process_arg.n%d" % n, "h_cmdline.c", entry="h_process_arg", unwind=n + 6, defines={"NPRE": n, "NINST": 1},
                      bounded="pre-state of exactly %d (name, value) pairs, names 1 character, old values <= 3 characters" % n,
                      functions=["process_arg"], timeout=to, min_obligations=6))
-    for n in (0, 1, 2, 3) + ((4,) if full else ()):
+    for n in (0, 1, 2, 3):
         for g in ((0, 1) if full else (n % 2,)):
             J.append(Job("process_args.i%d%s" % (n, "g" if g else ""), "h_cmdline.c", entry="h_process_args", unwind=2 * max(n, 1) + 4,
                          object_bits=10, defines={"NPRE": 1, "NINST": n, "GMCA": g},
                          bounded="exactly %d %s options, names and values 1 character" % (n, "--gmca" if g else "--mca"),
                          functions=["parsec_mca_cmd_line_process_args", "process_arg", "add_to_env"], timeout=to, min_obligations=5))
-    # known finding, isolated: a NULL string override crashes the lookup (strdup(NULL))
-    J.append(Job("lookup_override.null_string", "h_lookup.c", entry="h_lookup_override", unwind=slen + 3, unwindset=US,
-                 defines=dict(D0, ONLY_STRING=None, NULL_OVERRIDE=None), bounded="single scenario: string parameter whose override is NULL",
-                 functions=["lookup_override"], timeout=to, min_obligations=1))
+    # a string parameter overridden with NULL (was a crash: strdup(NULL); fixed in /repo 4ba9c5d) -- kept as its own job
+    J.append(Job("lookup_override.null_string", "h_lookup.c", entry="h_null_override", unwind=slen + 3, unwindset=US,
+                 defines=dict(D0, NULL_OVERRIDE=None), bounded="single scenario: string parameter whose override is NULL; " + BS % (slen - 1),
+                 functions=["lookup_override", "param_lookup"], timeout=to, min_obligations=4))
     return J
